@@ -254,6 +254,9 @@ class Check:
                 if msg not in self.known_seen:
                     self.known_seen.append(msg)
                 return
+        self.violation_count = getattr(self, "violation_count", 0) + 1
+        if len(self.violations) >= 6:
+            return  # enough replays written; the count is in the evidence
         path = os.path.join("replays", "%s-%s-%d-%d.txt" % (self.pid, re.sub(r"[^A-Za-z0-9_.-]", "_", name)[:60], self.seed, len(self.violations)))
         with open(os.path.join(ROOT, path), "w") as f:
             f.write(text if text.endswith("\n") else text + "\n")
@@ -288,7 +291,7 @@ class Check:
             "coverage": cov,
             "assumptions": list(assumptions),
             "wall_s": round(wall, 2),
-            "violations": len(self.violations),
+            "violations": getattr(self, "violation_count", len(self.violations)),
         }
         with open(os.path.join(ROOT, "evidence", self.pid + ".json"), "w") as f:
             json.dump(ev, f, indent=1, sort_keys=True)
